@@ -131,6 +131,20 @@ def deviations(data, tier, pairs=False):
                 sub = bytes([sid, len(extra)]) + extra
                 s2 = secs[:k] + [wp.custom_section('name', payload + sub)] + secs[k + 1:]
                 yield ('namesub', 'name section with an extra subsection id %d (%d bytes) appended' % (sid, len(extra)), (lambda s2=s2: wp.emit(hdr, s2)))
+    # the same module padded by a custom section to file sizes that are exact multiples of common I/O block sizes (and one byte off)
+    total = len(wp.emit(hdr, secs))
+    for target in (4095, 4096, 4097, 8192, 12288, 16384, 65536, 131072):
+        room = target - total
+        if room < 8:
+            continue
+        # custom section: id (1) + size LEB (n) + name length (1) + 'pad' (3) + payload
+        for nleb in (1, 2, 3):
+            pay = room - 1 - nleb - 4
+            if pay >= 0 and len(wp.Leb(pay + 4, False, 32, None, 'x').emit()) == nleb:
+                s2 = secs + [wp.custom_section('pad', b'\x00' * pay)]
+                if len(wp.emit(hdr, s2)) == target:
+                    yield ('filesize', 'padded by a custom section to a file of exactly %d bytes' % target, (lambda s2=s2: wp.emit(hdr, s2)))
+                break
     # data segments: flag 0 <-> flag 2 + memory index 0
     for s in secs:
         if s.id == 11:
